@@ -1727,3 +1727,51 @@ def failed_then_fresh_stream(start_id=28000):
         ops.append('hrt ' + hx(b'deadbeef'))
         ops.append('henc ' + hx(b'deadbeef'))
     return ops
+
+
+
+def split_ambiguity_stream(start_id=29000):
+    """fields whose name+value concatenation equals that of a table entry but splits elsewhere (accept / -charset vs
+    accept-charset / ''), with separators a composite key might use (NUL, ':', ': ', space), against the static
+    table and against dynamic entries; searched on a table, encoded over a connection"""
+    from refmodel import STATIC
+    ops = []
+    tid = start_id
+    ops.append('tnew %d' % tid)
+    fields = []
+    for n, v in STATIC:
+        cat = n + v
+        for k in range(0, len(cat) + 1):
+            if k != len(n) and (k in (0, len(cat)) or cat[:k] in [x for x, _ in STATIC] or abs(k - len(n)) <= 2):
+                fields.append((cat[:k], cat[k:]))
+        for sep in (b'\x00', b':', b': ', b' ', b'\n', b'='):
+            fields.append((n + sep + v, b''))
+            fields.append((n, sep + v))
+            if v:
+                fields.append((n + sep, v))
+    seen = set()
+    uniq = []
+    for f in fields:
+        if f not in seen:
+            seen.add(f); uniq.append(f)
+    for n, v in uniq:
+        ops.append('tsearch %d %s %s' % (tid, hx(n), hx(v)))
+    # dynamic entries with the same ambiguity
+    tid += 1
+    ops.append('tnew %d' % tid)
+    dyn = [(b'ab', b'c'), (b'x-key', b'value'), (b'a', b''), (b'', b'a'), (b'k:', b'v'), (b'k', b':v')]
+    for n, v in dyn:
+        ops.append('tadd %d %s %s' % (tid, hx(n), hx(v)))
+    for n, v in dyn:
+        cat = n + v
+        for k in range(len(cat) + 1):
+            ops.append('tsearch %d %s %s' % (tid, hx(cat[:k]), hx(cat[k:])))
+    # the same fields through an Encoder and a piped Decoder (chunks of 6 fields per block)
+    e = tid + 1
+    ops.append('enew %d' % e); ops.append('dnew %d 1000000' % e)
+    allf = uniq[:] + [(cat[:k], cat[k:]) for n, v in dyn for cat in [n + v] for k in range(len(cat) + 1)]
+    for i in range(0, len(allf), 6):
+        chunk = allf[i:i + 6]
+        ops.append('eenc %d %d %s' % (e, (i // 6) % 2, ' '.join('%s:%s:0' % (hx(n), hx(v)) for n, v in chunk)))
+        ops.append('pipe %d 1 %d' % (e, e))
+    return ops
